@@ -138,6 +138,9 @@ func shutGen(seed uint64, tier string) KScenario {
 	}
 	dg := r.P(0.6)
 	sc.Cfg.Datagrams = [2]bool{dg || spec, dg}
+	if r.P(0.25) {
+		sc.Cfg.Datagrams[r.N(2)] = !spec && r.Bool() // one side only receives, the other only sends
+	}
 	idles := []int{2000, 3000, 5000, 8000, 15000, 30000, 0}
 	sc.Cfg.IdleMS = [2]int64{int64(idles[r.N(len(idles))]), int64(idles[r.N(len(idles))])}
 	if spec {
@@ -557,7 +560,8 @@ func (s *shutRun) actor(side int, a ShutActor) {
 			}
 		}
 	case "snddgram":
-		if !s.datagramsOn() {
+		// (what matters for sending is that the peer accepts datagrams; the local setting only governs receiving)
+		if !s.sc.Cfg.Datagrams[1-side] {
 			return
 		}
 		b := wPayload(s.sc.Seed, 7, 900)
@@ -620,6 +624,8 @@ func (s *shutRun) laterCalls(side int) {
 				break
 			}
 		}
+	}
+	if s.sc.Cfg.Datagrams[1-side] {
 		late("snddgram", func() error { return conn.SendDatagram([]byte("late datagram")) })
 	}
 }
